@@ -6,6 +6,32 @@ VERIF = Path(__file__).resolve().parent.parent
 ALL = [f"C{i:02d}" for i in range(1, 20)]
 
 CLAIMED = {
+    "C07": dict(
+        text="sched/ElabSched.tla models ElabPass.elaborate / elaborate_module_base and the process-global per-class done/pending/failed caches, "
+             "one action per decision point. It is model-checked (AppliedInOrder, ChildrenFirst, HistoryIndependent, MarkedAreComplete, "
+             "CheckedAfterFlatten, NoStalePending) over four 5-module DAG shapes with sharing, with the pass list and cache assignment read "
+             "from the running code; TLC emits every call history. Each history x entry-point assignment (elaborate / to_proto / netlist) runs "
+             "in a fresh process on fresh copies of the DAG (bundle-valued ports, port references, arrays, bundle-free modules) with the "
+             "elaboration hooks on: Trace_Elab requires the hook events - every skip/enter decision, logged |done| and pending sets, "
+             "children-first order, per-module pass sequences - to be a behaviour of ElabSched, and Trace_Register requires every package and "
+             "netlist to be byte-identical across all histories incl. single-call reference histories; new parents of elaborated modules must "
+             "build, additions after elaboration must be refused.",
+        note="Trusted: hook sink and digests (harness/elabtrace.py), driver, TLC. Bounds: 4 shapes, 2 calls (quick) / 3 calls (thorough), top lists "
+             "of 1-2 modules, entry-point assignments sampled. Id-reuse of freed objects (THE_CACHE keyed by id) is not forced.",
+        ref="6 C07", technique="TLA+ state machine (ElabSched) model-checked + TLC-enumerated call histories replayed in fresh processes + hook-trace validation by TLC"),
+    "C08": dict(
+        text="ElabSched with FailAt enabled at every (pass, module) and GenCache with BodyRaise are model-checked (NoStalePending, "
+             "HalfRewrittenNeverMarked). For every DAG shape x module x failure source - an exception injected through a custom pass list "
+             "before every pass position and inside every pass after its rewrite, real design faults caught by a checking pass and by a "
+             "rewriting pass part-way, generator bodies raising once - the failing call is made in a fresh process and followed by every "
+             "continuation (unrelated design, tops without / with the offending module, retry with the same and the default elaborator, repair "
+             "and retry). Each call is paired with what a fresh process returns for the design as it is then; Trace_Fail decides the contract "
+             "(returns only what a fresh process returns; unrelated designs unaffected; raises only the fresh error or the original failure) "
+             "and Trace_Elab validates the fail / refail hook events against ElabSched.",
+        note="Trusted: driver incl. fork-based fresh references, error signature = exception type + last message line, TLC. Injection positions are "
+             "sampled in quick (6 per module), exhaustive in thorough.",
+        ref="6 C08", technique="TLA+ state machines (ElabSched, GenCache) with fault actions + fault-sequence enumeration replayed + TLC trace validation",
+        category="fault_enumeration"),
     "C05": dict(
         text="Seven+1 base patterns exercise every name-inventing mechanism (implicit signal of a port-reference group, unnamed and named "
              "no-connects, flattened members of internal and nested bundle instances, members of one bundle whose flattened names coincide, "
